@@ -1,6 +1,7 @@
 # -*- coding: utf-8 -*-
 """C11 - aggregates and criteria functions.  Model: coq/Model/Aggregates.v.  Theorems: Properties/C11.v."""
 import math
+import random
 from fractions import Fraction
 
 from common import Result, pmap, compare, enc_value, dec_value, canon_py, Catch, thaw, ERR, ERR_CODES
@@ -258,13 +259,17 @@ def check_criteria(c):
             out.append(('AVERAGEIF(%r,%r) with nothing selected' % (vals, crit), None, 'an error', got))
     # *IFS: items selected through one or two criteria ranges
     items = [i * 10 - 35 for i in range(len(vals))]
+    r_ = random.Random(repr(c))
+    if r_.random() < 0.6:
+        # unordered items with zeros, repeats and negatives after them (a running maximum / sum of exactly 0 is a value too)
+        items = [r_.choice([0, 0, -5, -1, 3, 10, -20, 0.5, 0.0, 7]) for _ in range(len(vals))]
     pred2 = crit_pred(crits[1])
     if any(pred2(v) is None for v in crits[0]):
         return out
     rows = [i for i in range(len(vals)) if pred(vals[i]) and pred2(crits[0][i])]
-    chosen = [items[i] for i in rows]
+    chosen = [Fraction(items[i]) for i in rows]
     for name, want in (('SUMIFS', Fraction(sum(chosen))), ('MAXIFS', Fraction(max(chosen)) if chosen else Fraction(0)),
-                       ('AVERAGEIFS', Fraction(sum(chosen), len(chosen)) if chosen else None)):
+                       ('AVERAGEIFS', sum(chosen) / len(chosen) if chosen else None)):
         got = call(name, [items, vals, crit, crits[0], crits[1]])
         if want is None:
             if not isinstance(got, tuple):
@@ -387,6 +392,10 @@ def explore(ctx):
         vals = [rng.choice([w for w in WORDS if w]) for _ in range(n)] if textual else [rnum(rng, 3) for _ in range(n)]
         crit = rng.choice(CRITS[9:]) if textual else rng.choice(CRITS[:9])
         work.append(('criteria', (vals, ([rnum(rng, 3) for _ in range(n)], rng.choice(CRITS[:9])), crit)))
+        if not textual:
+            # selections whose extreme / sum is exactly zero, followed by negatives
+            zv = [rng.choice([0, 0, -5, -1, 3, 0.0, -0.5]) for _ in range(n)]
+            work.append(('criteria', (zv, ([rng.choice([1, 1, 2, 0]) for _ in range(n)], rng.choice(['>0', '>=1', '<3', '<>0'])), rng.choice(['<=0', '<1', '>=-5', '<>3']))))
     for _ in range(N // 10):
         n = rng.randint(1, 8)
         items = [rnum(rng, 0) for _ in range(n)]
